@@ -130,13 +130,22 @@ def writers_rule(ctx, rid):
                 rr.bad(ctx.finding(rid, fi, c, "%s writes %s, which is not in the reviewed writer table" % (fi.qualname, "/".join(rel)), construct="unlisted-writer " + "/".join(rel)), "%s writes" % fi.qualname)
     # the result name is a function of batch_number alone
     grow = prog.need_func(CROP + ".grow")
-    d = single_def(grow, "results_file")
-    need(d is not None, "idiom changed: grow() results_file")
-    fm = [x for x in ast.walk(d[1]) if isinstance(x, ast.Call) and isinstance(x.func, ast.Attribute) and x.func.attr == "format" and norm(x.func.value) == "RSLT_NM"]
-    if len(fm) == 1 and len(fm[0].args) == 1 and norm(fm[0].args[0]) == "batch_number" and not [1 for n_, _ in __import__("xyzsa.util", fromlist=["x"]).assignments_to(grow, "batch_number")]:
-        rr.ok("grow(): the result name is RSLT_NM.format(batch_number), the batch's own id")
+    wr = [c for n, c, nm in all_calls(ctx, grow) if nm == CROP + ".write_to_disk"]
+    need(len(wr) == 1, "anchor lost: grow() result write")
+    from ..util import assignments_to
+    ok_name = False
+    try:
+        v7 = ConstFold(ctx, grow, {"batch_number": 7, "crop_location": LOCATION_STANDIN, "crop.location": LOCATION_STANDIN}, lenient=True).ev(arg(wr[0], 1, "fname"))
+        v9 = ConstFold(ctx, grow, {"batch_number": 9, "crop_location": LOCATION_STANDIN, "crop.location": LOCATION_STANDIN}, lenient=True).ev(arg(wr[0], 1, "fname"))
+        ok_name = isinstance(v7, str) and v7.endswith("/results/" + t["RSLT_NM"].format(7)) and v9.endswith("/results/" + t["RSLT_NM"].format(9))
+    except AnalysisError:
+        ok_name = None
+    if ok_name is None:
+        raise AnalysisError("idiom changed: grow() result file name does not fold")
+    if ok_name and not assignments_to(grow, "batch_number"):
+        rr.ok("grow(): the result name is results/RSLT_NM.format(batch_number), the batch's own id")
     else:
-        rr.bad(ctx.finding(rid, grow, d[1], "grow() names its result file with %s instead of its own batch_number: it overwrites / records another batch's result" % (norm(fm[0].args[0]) if fm and fm[0].args else norm(d[1])), construct="result-name-id"), "own result name")
+        rr.bad(ctx.finding(rid, grow, wr[0], "grow() does not name its result file after its own batch_number: it overwrites / records another batch's result", construct="result-name-id"), "own result name")
     # removals
     REMOVERS = {"os.remove", "os.unlink", "shutil.rmtree", "os.rmdir", "os.removedirs", "?.unlink", "?.rmdir", "shutil.move", "os.truncate"}
     ok_removers = {CROP + ".Crop.delete_all": "removes the whole crop after a reap", CROP + ".Crop.check_bad": "removes results it found unreadable / of the wrong length",
@@ -213,13 +222,13 @@ def progress_rule(ctx, rid):
 def listing_rule(ctx, rid):
     """Directory listings count final names and never a leftover temporary."""
     import os
-    rr = ctx.rule(rid, "directory listings used for progress see finished files but no leftover temporary of the writer", floor=3)
+    rr = ctx.rule(rid, "directory listings used for progress see finished files but no leftover temporary of the writer", floor=2)
     prog = ctx.prog
     crop_funcs = c11.crop_slice(ctx)
     writers = c11.find_writers(ctx, crop_funcs)
     need(writers, "anchor lost: crop file writer")
     listings = c11.reader_listings(ctx)
-    need(len(listings) >= 3, "anchor lost: expected >= 3 directory listings of results/batches, found %d" % len(listings))
+    need(len(listings) >= 2, "anchor lost: expected >= 2 directory listings of results/batches, found %d" % len(listings))
     samples = ["/scratch/.xyz-f/results/xyz-result-7.jbdmp", "/scratch/.xyz-f/batches/xyz-batch-12.jbdmp"]
     for fi, cfg, n, oc in writers:
         pa = arg(oc, 0, "file")
